@@ -32,3 +32,17 @@ Proof. exact composite_pipe_refuted. Qed.
 Example C01_nonvacuous : composite_cd_free [0] ex_query /\ length (run_model [0] ex_query ex_rows) = 3 /\
   nth 0 (run_model [0] ex_query ex_rows) ([], []) = ([VStr "a"; VNull], [RVal (VInt 10%Z); RVal (VInt 1%Z); RVal (VInt 1%Z); RBag "median" [VInt 10%Z]]).
 Proof. exact ex_nonvacuous. Qed.
+
+Require V.Model.SmallFns V.Gen.Small_gen V.Proofs.Small_proofs.
+
+(* the aggregate the outer query applies, regenerated: Gen/Small_gen.v holds what SQLGenerator._build_measure_aggregation_sql returns for every aggregation literal
+   (incl. one in mixed case) and model / measure names that need quoting, extracted from generator.py on every run (with _cte_ref, _cte_name, _quote_identifier,
+   _is_simple_identifier inlined).  The model returns the same text on every row, and for ANY literal and names it is <AGG>(<cte>.<measure>_raw), COUNT(DISTINCT ...)
+   for count_distinct: the aggregate Model/Single.v applies to the raw column of the measure, never COUNT( * ) and never the filtered expression again. *)
+Theorem C01_aggregate_table : forallb V.Model.SmallFns.aggsql_row_ok V.Gen.Small_gen.aggsql_rows = true.
+Proof. exact V.Proofs.Small_proofs.aggsql_table_ok. Qed.
+Theorem C01_aggregate_shape : forall agg m n,
+  V.Model.SmallFns.agg_sql agg m n =
+    (if String.eqb (V.Model.SmallFns.upper agg) "COUNT_DISTINCT" then "COUNT(DISTINCT " ++ V.Model.SmallFns.cte_ref m (n ++ "_raw") ++ ")"
+     else V.Model.SmallFns.upper agg ++ "(" ++ V.Model.SmallFns.cte_ref m (n ++ "_raw") ++ ")")%string.
+Proof. exact V.Proofs.Small_proofs.agg_sql_shape. Qed.
